@@ -237,8 +237,98 @@ def canonical_key(c, r):
             c["start"] if td else "any", c["unique"] if r.get("unique_reduces") else "no-degeneracy", c["epsrel"])
 
 
+# ------------------------------------------------------------------------------------------------
+# extra families: (a) the (time step, memory length) lattice, the memory given as dkmax or as the equivalent tcut typed as
+# a decimal literal; (b) non-smooth explicit time dependence (pulse edges and a dissipator switched on at times that are
+# not on the half-step grid)
+
+LATTICE_DTS = ["0.05", "0.06", "0.1", "0.12", "0.15", "0.2", "0.25", "0.3", "0.35", "0.4", "0.7"]
+
+
+def lattice_case(args):
+    dts, k, how = args
+    dt = float(dts)
+    n = k + 3
+    eps = 1e-8
+    bath = oq.Bath(0.5 * M.SZ, C.lib_correlations(C.sd_spec("power", 0.4, 1.0, 3.0, "exponential", 0.5)))
+    sysm = oq.System(0.9 * M.SX + 0.2 * M.SZ)
+    rho0 = initial_state(2)
+    bad = []
+    try:
+        if how == "dkmax":
+            prm = C.make_params(dt, eps, dkmax=k)
+        else:
+            prm = C.make_params(dt, eps, tcut=float(f"{k * dt:.10g}"))
+        if prm.dkmax != k:
+            bad.append((f"lattice|memory-as-{how}|parameters-report-dkmax-{'smaller' if prm.dkmax < k else 'larger'}",
+                        f"dt={dts} memory {k} steps given as {how}: TempoParameters.dkmax = {prm.dkmax}"))
+        _, ts = C.run_tempo(sysm, bath, prm, rho0, 0.0, n, False)
+        pt = C.run_pt(bath, prm, 0.0, n, False)
+        _, ps = C.run_pt_dynamics(sysm, pt, rho0, 0.0)
+        full = C.make_params(dt, eps)
+        _, fs = C.run_tempo(sysm, bath, full, rho0, 0.0, n, False)
+    except Exception as ex:  # noqa
+        return {"bad": [(f"lattice|memory-as-{how}|exception:{type(ex).__name__}", f"dt={dts} K={k}: {ex}"[:160])], "eff": 0.0}
+    dev = float(np.abs(ts - ps).max()) if ts.shape == ps.shape else 9.9
+    if dev > tolerance(eps, n):
+        bad.append((f"lattice|memory-as-{how}|tempo-vs-pttempo-differ",
+                    f"dt={dts} memory {k} steps given as {how}, {n} steps: TEMPO and PT-TEMPO differ by {dev:.2e}"))
+    return {"bad": bad, "eff": float(np.abs(ts - fs).max()), "dev": dev}
+
+
+def pulse_system(d, start):
+    h0 = M.generic_herm(d, 1, 0.8)
+    h1 = M.generic_herm(d, 2, 0.9)
+    lop = np.diag(np.ones(d - 1), 1).astype(complex)
+
+    def h(t):
+        s_ = t - start
+        return h0 + (1.5 * h1 if 0.33 <= s_ < 0.71 else 0.0 * h1)
+    return oq.TimeDependentSystem(h, gammas=[lambda t: 0.8 if t - start >= 0.47 else 0.0], lindblad_operators=[lambda t: lop])
+
+
+def pulse_case(args):
+    cp, start, k, eps = args
+    o = coupling(cp)
+    d = o.shape[0]
+    n = N_STEPS
+    bath = oq.Bath(o, C.lib_correlations(SDS["ohmic-exp-T0.5"]))
+    rho0 = initial_state(d)
+    sysm = pulse_system(d, start)
+    prm = C.make_params(DT, eps, dkmax=k)
+    try:
+        _, ts = C.run_tempo(sysm, bath, prm, rho0, start, n, False)
+        pt = C.run_pt(bath, prm, start, n, False)
+        _, ps = C.run_pt_dynamics(sysm, pt, rho0, start)
+        smooth = oq.TimeDependentSystem(lambda t: M.generic_herm(d, 1, 0.8))
+        _, ss = C.run_tempo(smooth, bath, prm, rho0, start, n, False)
+    except Exception as ex:  # noqa
+        return {"bad": [(f"pulse|{cp}|exception:{type(ex).__name__}", str(ex)[:160])], "eff": 0.0}
+    dev = float(np.abs(ts - ps).max())
+    bad = []
+    if dev > tolerance(eps, n):
+        bad.append((f"pulse|{cp}|tempo-vs-pttempo-differ",
+                    f"H(t), gamma(t) with steps off the half-step grid, start={start} dkmax={k} epsrel={eps}: differ by {dev:.2e}"))
+    return {"bad": bad, "eff": float(np.abs(ts - ss).max()), "dev": dev}
+
+
 def run(tier, seed):
     rep = Report(LEVEL)
+    lj = [(dts, k, how) for dts in LATTICE_DTS for k in range(1, 7 if tier == "quick" else 13) for how in ("dkmax", "tcut")]
+    lres = pmap(lattice_case, lj, seed=seed)
+    for j, r in zip(lj, lres):
+        for cls, what in r["bad"]:
+            rep.add(Violation(cls, what, {"family": "lattice", "args": list(j)}))
+    pj = [(cp, st, k, e) for cp in ("sz", "sx", "d3block") for st in (0.0, -0.3, 1.7) for k in (None, 2) for e in EPSRELS]
+    pres = pmap(pulse_case, pj, seed=seed)
+    for j, r in zip(pj, pres):
+        for cls, what in r["bad"]:
+            rep.add(Violation(cls, what, {"family": "pulse", "args": list(j)}))
+    extra_cov = {"memory_lattice": {"dt": LATTICE_DTS, "steps": [1, 6 if tier == "quick" else 12], "given_as": ["dkmax", "tcut"],
+                                    "cases": len(lj), "min_memory_cutoff_effect": min(r["eff"] for r in lres),
+                                    "max_dev": max(r.get("dev", 0.0) for r in lres if not r["bad"]) if any(not r["bad"] for r in lres) else None},
+                 "pulse_family": {"cases": len(pj), "min_pulse_effect": min(r["eff"] for r in pres),
+                                  "max_dev_over_tol": max((r.get("dev", 0.0) / tolerance(j[3], N_STEPS)) for j, r in zip(pj, pres))}}
     shs = shards(tier)
     res = pmap(shard_worker, shs, chunksize=1, seed=seed)
     keys = set()
@@ -295,8 +385,9 @@ def run(tier, seed):
                 start_active += 1
                 min_start = min(min_start, r["start_effect"])
     rep.coverage = {
-        "evaluations": evaluations,
-        "distinct_nontrivial": len(keys),
+        "evaluations": evaluations + len(lj) + len(pj),
+        "distinct_nontrivial": len(keys) + len(lj) + len(pj),
+        "extra_families": extra_cov,
         "trivial_or_inactive": trivial,
         "process_tensors_built": pts_built,
         "rule": "shards = (system, coupling, spectral density, unique), each running memory settings x start times x epsrel; "
@@ -332,6 +423,10 @@ def run(tier, seed):
 
 
 def replay(rp):
+    if rp.get("family") in ("lattice", "pulse"):
+        a = rp["args"]
+        r = lattice_case(tuple(a)) if rp["family"] == "lattice" else pulse_case(tuple(a))
+        return {"obs": [b[0] for b in r["bad"]], "violation": r["bad"][0][0] if r["bad"] else None}
     c = dict(rp)
     c["mem"] = list(c["mem"])
     r = run_case(c)
